@@ -54,6 +54,20 @@ def call_function(cls_info, name: str, args: list, kwargs: dict, depth: int, ext
 				if isinstance(tgt, ast.Name):
 					env[tgt.id] = v_
 					continue
+				if isinstance(tgt, (ast.Tuple, ast.List)) and isinstance(v_, (list, tuple)) and sum(isinstance(x, ast.Starred) for x in tgt.elts) == 1 and all(isinstance(x.value if isinstance(x, ast.Starred) else x, ast.Name) for x in tgt.elts):
+					star = next(i for i, x in enumerate(tgt.elts) if isinstance(x, ast.Starred))
+					after = len(tgt.elts) - star - 1
+					if len(v_) < star + after:
+						return ('ret', UNKNOWN)  # would raise
+					vals = list(v_)
+					for i, x in enumerate(tgt.elts):
+						if i < star:
+							env[x.id] = vals[i]
+						elif i == star:
+							env[x.value.id] = vals[star:len(vals) - after]
+						else:
+							env[x.id] = vals[len(vals) - (len(tgt.elts) - i)]
+					continue
 				if isinstance(tgt, (ast.Tuple, ast.List)) and all(isinstance(x, ast.Name) for x in tgt.elts) and isinstance(v_, (list, tuple)):
 					if len(v_) != len(tgt.elts):
 						return ('ret', UNKNOWN)  # would raise
@@ -89,7 +103,7 @@ def _ev(fn_node: ast.AST, e: ast.AST, env: dict[str, object], depth: int, dsn_cl
 
 	if depth > MAX_DEPTH:
 		return UNKNOWN
-	if not local or isinstance(e, ast.Attribute):
+	if not local or isinstance(e, (ast.Attribute, ast.Call)):
 		src = unparse(e)
 		if src in env:
 			return env[src]
@@ -278,6 +292,20 @@ def _ev(fn_node: ast.AST, e: ast.AST, env: dict[str, object], depth: int, dsn_cl
 			except Exception:
 				return RAISES
 		if (local and fn.startswith(('self.', 'cls.'))) and own_method_cls is not None:
-			return call_function(own_method_cls, fn.split('.', 1)[1], args, kwargs, depth + 1)
+			return call_function(own_method_cls, fn.split('.', 1)[1], args, kwargs, depth + 1, {k: v for k, v in env.items() if not k.isidentifier()})
+		if not local and fn.startswith(('self.', 'cls.')) and fn.count('.') == 1 and dsn_cls is not None and dsn_cls.method(fn.split('.', 1)[1]) is not None:
+			# a method of the class under evaluation, called from the function the caller handed in: its attribute reads come from the caller's env
+			return call_function(dsn_cls, fn.split('.', 1)[1], args, kwargs, depth + 1, {k: v for k, v in env.items() if not k.isidentifier()})
+		if isinstance(e.func, ast.Attribute) and e.func.attr == 'format' and not kwargs:
+			recv = ev(e.func.value)
+			if isinstance(recv, str) and all(isinstance(a, (str, int)) and not isinstance(a, bool) for a in args) and recv.count('{}') == len(args) and recv.count('{') == len(args) and recv.count('}') == len(args):
+				return recv.format(*args)
+			return UNKNOWN
+		if fn == 'os.path.join' and args and all(isinstance(a, str) for a in args) and not kwargs:
+			import posixpath
+			return posixpath.join(*args)
+		if fn in ('os.path.abspath', 'os.path.normpath') and len(args) == 1 and isinstance(args[0], str) and args[0].startswith('/') and not kwargs:
+			import posixpath
+			return posixpath.normpath(args[0])
 		return UNKNOWN
 	return UNKNOWN
